@@ -16,6 +16,13 @@ theorem sliceOK_from {α : Type} (l : List α) (i : Nat) (h : i ≤ l.length) :
     sliceOK (len l) (i : Int) (len l) = true := by
   simp [sliceOK, len]; omega
 
+theorem copy_replicate {α : Type} (s : List α) (z : α) :
+    copy (List.replicate (Int.toNat (len s)) z) s = s := by
+  simp [copy, len]
+theorem fmtInt_len {α : Type} (s : List α) : fmtInt (len s) = decDigits s.length := by
+  have h : ¬ ((s.length : Nat) : Int) < 0 := by omega
+  simp [fmtInt, len, h]
+
 /-! ### natural-number indices -/
 theorem idxOK_nat {α : Type} (l : List α) (i : Nat) : idxOK (len l) (i : Int) = decide (i < l.length) := by
   simp [idxOK, len]
